@@ -1,15 +1,18 @@
 import Model.C16
 import Model.C16Partition
+import Model.C16Ctor
 import Std.Data.TreeMap
 /-!
 Oracle handlers for C16: model output (correspondence) and judge (property on impl output).
 
 Lines (3 input fields each, `-` = unused):
 * `C16.rand  stream req taken  | obs`            RandomTokenGenerator.GenerateTokens on a recorded stream
-* `C16.inst  zone n -          | obs`            generateAllTokens for instance n
+* `C16.inst  zone n -          | obs row`        generateAllTokens for instance n; row = instance n's tokens in the zone's big map
 * `C16.gen   zone,n req taken  | all512 obs`     SpreadMinimizingTokenGenerator.GenerateTokens
 * `C16.map   zone n -          | lists`          the whole tokensByInstanceID map (generation order)
 * `C16.part  ops - -           | entries`        PartitionRingDesc after `A:id:state:now` (AddPartition) / `S:id` (seeded entry) ops
+* `C16.ctor  instance zone zones | obs cfg`       NewSpreadMinimizingTokenGenerator + GenerateTokens(512, nil); cfg = the same
+                                                  instance in every configured zone (sorted zone order)
 * `C16.calc  token prev opt    | obs`            calculateNewToken
 * `C16.opt   i curr remaining  | obs`            optimalTokenOwnership(2^32/(i+1), curr, remaining)
 * `C16.less  oi,ki oj,kj -     | bool`           ownershipPriorityQueue.Less
@@ -199,6 +202,7 @@ def judgePart (added : List Int) (entries : List (Int × List Nat)) : List Strin
   if added.any (fun id => !(entries.any (fun e => e.1 == id))) then bad := "partition-missing" :: bad
   if mine.any (fun e => e.2.length != 512) then bad := "not-512-tokens" :: bad
   if mine.any (fun e => !strictlySorted e.2) then bad := "not-sorted-or-duplicate" :: bad
+  if mine.any (fun e => e.2.any (fun t => t % 8 != 0 || t ≥ 4294967296)) then bad := "not-congruent-to-zone" :: bad
   let all := (mine.map (·.2)).flatten
   if (mkSet all).size != all.length then bad := "token-shared-by-partitions" :: bad
   return bad
@@ -253,7 +257,12 @@ def handleRand (f : List String) : String × String × String :=
       let diff := if m == obs then "-" else "model=" ++ m
       let judge := match parseOk obs with
         | some ts => judgeStr (judgeRand req taken ts)
-        | none => "-"      -- stream exhausted: the call did not return
+        | none =>
+          -- the call did not return on this stream: allowed only if the stream does not hold
+          -- `req` distinct free values ("returns the requested count whenever that many exist")
+          let tk := mkSet taken
+          let free := (mkSet (stream.filter (fun v => !tk.contains v))).size
+          if req > 0 ∧ req.toNat ≤ free then "did-not-return-although-enough-free-tokens-drawn" else "-"
       let rejected := stream.length - (if req > 0 then req.toNat else 0)
       (diff, judge, s!"kind=rand req={if req < 0 then "neg" else if req == 0 then "0" else if req < 512 then "1-511" else ">=512"} rejected={if rejected == 0 then "0" else ">0"} res={(obs.take 3).toString}")
     | _, _, _ => ("bad-input", "-", "-")
@@ -261,15 +270,19 @@ def handleRand (f : List String) : String × String × String :=
 
 def handleInst (f : List String) : String × String × String :=
   match f with
-  | [zs, ns, _, obs] =>
+  | [zs, ns, _, obs, row] =>
     match zs.toNat?, ns.toNat? with
     | some z, some n =>
       let m := showRes (allTokensAt z n)
       let diff := if m == obs then "-" else "model=" ++ (m.take 200).toString
+      -- reproducibility, on the implementation's outputs only: the tokens instance n's own generator
+      -- yields = the (sorted) tokens the generator of a later instance attributes to n
+      let repro := if row == "-" then [] else
+        if obs == "ok:" ++ row then [] else ["differs-from-what-a-later-generator-attributes-to-it"]
       let judge := match parseOk obs with
-        | some ts => judgeStr (judgeInst z ts)
+        | some ts => judgeStr (repro ++ judgeInst z ts)
         | none => "generation-failed"
-      (diff, judge, s!"kind=inst id={idClass n}")
+      (diff, judge, s!"kind=inst id={idClass n} crossChecked={decide (row != "-")}")
     | _, _ => ("bad-input", "-", "-")
   | _ => ("bad-fields", "-", "-")
 
@@ -339,6 +352,47 @@ def handlePart (f : List String) : String × String × String :=
     | none => ("bad-input", "-", "-")
   | _ => ("bad-fields", "-", "-")
 
+def unq (s : String) : String := if s == "~" then "" else s
+
+/-- property text: tokens of different zones never coincide; every token is congruent to its zone
+index. A zone that is not configured has no zone index: the generator must either be refused or
+produce tokens that no configured zone owns. -/
+def judgeCtor (zone : String) (zones : List String) (ts : List Nat) (cfg : List (List Nat)) : List String := Id.run do
+  let mut bad : List String := []
+  let mine := mkSet ts
+  -- zone index = position among the sorted configured zones = number of configured zones below it
+  let idx : Option Nat := if zones.contains zone then some (zones.filter (fun c => c < zone)).length else none
+  match idx with
+  | none =>
+    if cfg.any (fun l => l.any (fun t => mine.contains t)) then bad := "unconfigured-zone-shares-tokens-with-configured-zone" :: bad
+  | some k =>
+    if ts.any (fun t => t % 8 != k) then bad := "not-congruent-to-zone" :: bad
+    let others := (cfg.zipIdx.filter (fun p => p.2 != k)).map (·.1)
+    if others.any (fun l => l.any (fun t => mine.contains t)) then bad := "zones-share-tokens" :: bad
+  if ts.length != 512 then bad := "not-512-tokens" :: bad
+  if !strictlySorted ts then bad := "not-sorted-or-duplicate" :: bad
+  return bad
+
+def handleCtor (f : List String) : String × String × String :=
+  match f with
+  | [inst, zoneS, zonesS, obs, cfgS] =>
+    let zone := unq zoneS
+    let zones := if zonesS == "none" then [] else (zonesS.splitOn ",").map unq
+    let r := newGenerator inst zone zones
+    let m := match r with
+      | .error e => "err:" ++ e.name
+      | .ok (n, z) => match allTokensAt z n with
+        | .ok a => "ok:" ++ showToks (pickFree [] optimalTokensPerInstance a)
+        | .error _ => "err:panic"
+    let diff := if m == obs then "-" else "model=" ++ (m.take 60).toString
+    let cfg := if cfgS == "none" then some [] else (cfgS.splitOn ";").mapM (fun c => if c.startsWith "err:" then some [] else natList? c)
+    let judge := match parseOk obs, cfg with
+      | some ts, some cfg => judgeStr (judgeCtor zone zones ts cfg)
+      | _, _ => "-"
+    let configured := zones.contains zone
+    (diff, judge, s!"kind=ctor zoneConfigured={configured} zones={if zones.length == 0 then "0" else if zones.length > 8 then ">8" else "1-8"} res={if obs.startsWith "ok:" then "ok" else obs}")
+  | _ => ("bad-fields", "-", "-")
+
 def handleCalc (f : List String) : String × String × String :=
   match f with
   | [ts, ps, os, obs] =>
@@ -400,6 +454,7 @@ def handle (cmd : String) (f : List String) : String × String × String :=
   else if cmd == "C16.gen" then handleGen f
   else if cmd == "C16.map" then handleMap f
   else if cmd == "C16.part" then handlePart f
+  else if cmd == "C16.ctor" then handleCtor f
   else if cmd == "C16.calc" then handleCalc f
   else if cmd == "C16.opt" then handleOpt f
   else if cmd == "C16.less" then handleLess f
